@@ -116,15 +116,32 @@ theorem detailedStep_frame (D : DetVectors) (c : Circuit) (i : Nat) : Frame true
 theorem exportDetailed_frame (c : Circuit) (D : DetVectors) : Frame true c (exportDetailed c D) :=
   foldl_frame true _ (detailedStep_frame D) _ c
 
+theorem exportGlobalBlend_frame (c : Circuit) (G : GlobalVectors) : Frame false c (exportGlobalBlend c G) :=
+  exportGlobal_frame c _ _
+
+theorem globalCallback_frame (b : Bool) (c : Circuit) (xs ys : List Rat) : Frame false c (globalCallback b c xs ys) := by
+  unfold globalCallback
+  cases b
+  · exact Frame.refl _ _
+  · exact exportGlobal_frame c xs ys
+
+theorem detailedCallback_frame (b : Bool) (c : Circuit) (D : DetVectors) : Frame true c (detailedCallback b c D) := by
+  unfold detailedCallback
+  cases b
+  · exact Frame.refl _ _
+  · exact exportDetailed_frame c D
+
 theorem Write.apply_frame (w : Write) (c : Circuit) : Frame true c (w.apply c) := by
   cases w with
   | global xs ys => exact (exportGlobal_frame c xs ys).weaken
+  | globalBlend G => exact (exportGlobalBlend_frame c G).weaken
   | legal L => exact exportLegal_frame c L
   | detailed D => exact exportDetailed_frame c D
 
 theorem Write.apply_frame_global (w : Write) (hw : w.isGlobal = true) (c : Circuit) : Frame false c (w.apply c) := by
   cases w with
   | global xs ys => exact exportGlobal_frame c xs ys
+  | globalBlend G => exact exportGlobalBlend_frame c G
   | legal L => cases hw
   | detailed D => cases hw
 
@@ -141,5 +158,64 @@ theorem runWrites_frame_global (ws : List Write) (h : ∀ w ∈ ws, w.isGlobal =
   | nil => exact Frame.refl _ _
   | cons w ws ih =>
     exact Frame.trans (w.apply_frame_global (h w (by simp)) c) (ih (fun w' hw' => h w' (by simp [hw'])) (w.apply c))
+
+/-- the writes `GlobalPlacer::place` performs, as a `Write` list -/
+def placeGlobalWrites (hasCallback : Bool) (exposed : List (List Rat × List Rat)) (G : GlobalVectors) : List Write :=
+  (if hasCallback then exposed.map (fun p => Write.global p.1 p.2) else []) ++ [Write.globalBlend G]
+
+theorem foldl_globalCallback_false (exposed : List (List Rat × List Rat)) (c : Circuit) :
+    exposed.foldl (fun c p => globalCallback false c p.1 p.2) c = c := by
+  induction exposed generalizing c with
+  | nil => rfl
+  | cons p ps ih => exact ih c
+
+theorem foldl_globalCallback_true (exposed : List (List Rat × List Rat)) (c : Circuit) :
+    exposed.foldl (fun c p => globalCallback true c p.1 p.2) c
+      = (exposed.map (fun p => Write.global p.1 p.2)).foldl (fun c w => w.apply c) c := by
+  induction exposed generalizing c with
+  | nil => rfl
+  | cons p ps ih => exact ih _
+
+theorem placeGlobalBody_eq_writes (b : Bool) (exposed : List (List Rat × List Rat)) (G : GlobalVectors) (c : Circuit) :
+    placeGlobalBody b exposed G c = runWrites (placeGlobalWrites b exposed G) c := by
+  unfold placeGlobalBody placeGlobalWrites runWrites
+  cases b
+  · simp [foldl_globalCallback_false, Write.apply]
+  · simp [foldl_globalCallback_true, List.foldl_append, Write.apply]
+
+theorem placeGlobalWrites_isGlobal (b : Bool) (exposed : List (List Rat × List Rat)) (G : GlobalVectors) :
+    ∀ w ∈ placeGlobalWrites b exposed G, w.isGlobal = true := by
+  intro w hw
+  unfold placeGlobalWrites at hw
+  rcases List.mem_append.mp hw with h | h
+  · cases b
+    · simp at h
+    · simp only [if_true] at h
+      obtain ⟨p, _, rfl⟩ := List.mem_map.mp h
+      rfl
+  · simp at h; subst h; rfl
+
+/-- the writes `DetailedPlacer::place` performs -/
+def placeDetailedWrites (hasCallback : Bool) (L : LegVectors) (exposed : List DetVectors) (D : DetVectors) : List Write :=
+  [Write.legal L] ++ (if hasCallback then exposed.map Write.detailed else []) ++ [Write.detailed D]
+
+theorem foldl_detailedCallback_false (exposed : List DetVectors) (c : Circuit) :
+    exposed.foldl (detailedCallback false) c = c := by
+  induction exposed generalizing c with
+  | nil => rfl
+  | cons p ps ih => exact ih c
+
+theorem foldl_detailedCallback_true (exposed : List DetVectors) (c : Circuit) :
+    exposed.foldl (detailedCallback true) c = (exposed.map Write.detailed).foldl (fun c w => w.apply c) c := by
+  induction exposed generalizing c with
+  | nil => rfl
+  | cons p ps ih => exact ih _
+
+theorem placeDetailedBody_eq_writes (b : Bool) (L : LegVectors) (exposed : List DetVectors) (D : DetVectors) (c : Circuit) :
+    placeDetailedBody b L exposed D c = runWrites (placeDetailedWrites b L exposed D) c := by
+  unfold placeDetailedBody placeDetailedWrites runWrites
+  cases b
+  · simp [foldl_detailedCallback_false, Write.apply]
+  · simp [foldl_detailedCallback_true, List.foldl_append, Write.apply]
 
 end ColoVerif.Export
